@@ -123,6 +123,7 @@ var rwBoundaries = []string{
 var rwOracles = []string{"mustNoYield", "containsYield", "isTerminating", "isYieldCall", "isYieldFromCall", "isCallStmtOf", "isIterator", "isYieldFuncDecl", "isYieldFuncLit"}
 
 type rwConfig struct {
+	noOracles  bool
 	root       *ssa.Function
 	boundaries map[string]bool
 	// symbolic *block receivers: methods answered as oracles
@@ -214,6 +215,9 @@ func (r *rwRT) interp(cfg rwConfig) *Interp {
 			}
 			isBlockMethod := fn.Signature.Recv() != nil && strings.HasSuffix(fn.Signature.Recv().Type().String(), "rewriter.block")
 			for _, o := range rwOracles {
+				if cfg.noOracles {
+					break // the predicates themselves are under analysis: they are followed, not answered
+				}
 				if fn.Name() == o && fn != cfg.root && !isBlockMethod {
 					var as []string
 					start := 0
